@@ -4,7 +4,8 @@
 //! Bound: 12 start terms (≤ 9 nodes each) × 9 rule subsets of a 19-rule lambda/arithmetic system, ≤ 4 rounds of
 //! apply_rewrites each, and the same terms × 77 sequences that apply ONE rule per round (so that a round can add just one
 //! generator to an already symmetric class, or just one redundancy); Runner::run / run_eqsat with iter limits {0, 1, 2, 3}, node limits {0, 6, 10_000}, time limits
-//! {0 s, 60 s} and hooks failing at round {never, 0, 1, 2}; Runner::run with three hooks under 6 failure plans; check_limits on 4 × 4 × 2 hand-made limit triples.
+//! {0 s, 60 s} and hooks failing at round {never, 0, 1, 2}; Runner::run with three hooks under 6 failure plans; the same three checks under a constant-folding analysis whose
+//! modify hook unions classes (6 terms with numbers x 7 rule sets); check_limits on 4 × 4 × 2 hand-made limit triples.
 //! The fingerprint is computed without the progress measure and without the hash-cons size: nodes per class via
 //! `enodes`, the equality partition of the tracked subterms via `eq`, slots per class via `slots`, self-symmetries per
 //! class by trying every permutation of its slots (≤ 5 slots) through `eq`.
@@ -27,6 +28,19 @@ define_language! {
 }
 
 type EG = EGraph<RL, ()>;
+
+/// constant folding with a modify hook that unions the constant into the class (so that instantiating a rule's right side
+/// can already merge it with the left side before union_instantiations gets to it)
+#[derive(Default)] pub struct Fold;
+impl Analysis<RL> for Fold {
+    type Data = Option<u32>;
+    fn make(eg: &EGraph<RL, Self>, n: &RL) -> Option<u32> {
+        let get = |a: &AppliedId| *eg.analysis_data(a.id);
+        match n { RL::Number(x) => Some(*x), RL::Add(a, b) => Some(get(a)?.wrapping_add(get(b)?)), RL::Mul(a, b) => Some(get(a)?.wrapping_mul(get(b)?)), RL::Sub(a, b) => Some(get(a)?.wrapping_sub(get(b)?)), _ => None }
+    }
+    fn merge(l: Option<u32>, r: Option<u32>) -> Option<u32> { l.or(r) }
+    fn modify(eg: &mut EGraph<RL, Self>, i: Id) { if let Some(x) = *eg.analysis_data(i) { let a = eg.add(RL::Number(x)); let b = eg.mk_identity_applied_id(i); eg.union(&a, &b); } }
+}
 
 fn rules() -> Vec<(&'static str, &'static str, &'static str)> {
     vec![
@@ -58,7 +72,7 @@ fn subsets() -> Vec<Vec<usize>> {
     vec![vec![], vec![0], vec![0, 1], vec![3, 4], vec![0, 1, 2, 5, 6], vec![7, 8], vec![12], vec![1, 12], vec![0, 1, 2, 3, 4, 5, 6, 7, 8, 9, 10, 11]]
 }
 
-fn mk_rules(idx: &[usize]) -> Vec<Rewrite<RL, ()>> {
+fn mk_rules<N: Analysis<RL> + 'static>(idx: &[usize]) -> Vec<Rewrite<RL, N>> {
     let r = rules();
     idx.iter().map(|i| Rewrite::new(r[*i].0, r[*i].1, r[*i].2)).collect()
 }
@@ -105,7 +119,7 @@ struct Fingerprint {
     symmetries: usize,
 }
 
-fn fingerprint(eg: &EG, tracked: &[AppliedId]) -> Fingerprint {
+fn fingerprint<N: Analysis<RL>>(eg: &EGraph<RL, N>, tracked: &[AppliedId]) -> Fingerprint {
     let ids = eg.ids();
     let mut nodes = 0;
     let mut slots = 0;
@@ -132,9 +146,9 @@ fn fingerprint(eg: &EG, tracked: &[AppliedId]) -> Fingerprint {
     Fingerprint { nodes, live: ids.len(), partition, slots, symmetries }
 }
 
-fn start(t: &str) -> (EG, Vec<AppliedId>) {
+fn start<N: Analysis<RL> + Default>(t: &str) -> (EGraph<RL, N>, Vec<AppliedId>) {
     let re = RecExpr::<RL>::parse(t).unwrap();
-    let mut eg = EG::default();
+    let mut eg = EGraph::<RL, N>::default();
     let mut subs = Vec::new();
     subterms(&re, &mut subs);
     let tracked: Vec<AppliedId> = subs.into_iter().map(|s| eg.add_expr(s)).collect();
@@ -142,7 +156,7 @@ fn start(t: &str) -> (EG, Vec<AppliedId>) {
 }
 
 /// after a run that stopped as saturated: one more round changes nothing and both sides of every match are equal
-fn saturated_really(eg: &mut EG, tracked: &[AppliedId], idx: &[usize]) -> Option<String> {
+fn saturated_really<N: Analysis<RL> + 'static>(eg: &mut EGraph<RL, N>, tracked: &[AppliedId], idx: &[usize]) -> Option<String> {
     let r = rules();
     for i in idx {
         let a = Pattern::<RL>::parse(r[*i].1).unwrap();
@@ -156,7 +170,7 @@ fn saturated_really(eg: &mut EG, tracked: &[AppliedId], idx: &[usize]) -> Option
         }
     }
     let before = fingerprint(eg, tracked);
-    apply_rewrites(eg, &mk_rules(idx));
+    apply_rewrites(eg, &mk_rules::<N>(idx));
     let after = fingerprint(eg, tracked);
     if before != after { return Some(format!("one more round changed the e-graph: {:?} -> {:?}", before, after)); }
     None
@@ -171,8 +185,8 @@ pub fn run(only: &[String]) -> Vec<String> {
     if want("apply_rewrites") || want("EGraph::progress") {
         let mut n = 0;
         for t in terms() { for idx in subsets() {
-            let (mut eg, tracked) = start(t);
-            let rws = mk_rules(&idx);
+            let (mut eg, tracked) = start::<()>(t);
+            let rws = mk_rules::<()>(&idx);
             for round in 0..rounds {
                 verif_case(format!("term {} rules {:?} round {}", t, idx, round));
                 if eg.total_number_of_nodes() > 400 { break; }
@@ -199,10 +213,10 @@ pub fn run(only: &[String]) -> Vec<String> {
         for s in [[15usize, 16, 17], [13, 14, 18], [14, 13, 18], [15, 17, 16], [17, 15, 4]] { seqs.push(s.to_vec()); }
         let mut n = 0;
         for t in terms() { for seq in &seqs {
-            let (mut eg, tracked) = start(t);
+            let (mut eg, tracked) = start::<()>(t);
             for (round, r) in seq.iter().enumerate() {
                 verif_case(format!("term {} one rule per round {:?}, round {}", t, seq, round));
-                let rws = mk_rules(&[*r]);
+                let rws = mk_rules::<()>(&[*r]);
                 let before = fingerprint(&eg, &tracked);
                 let changed = apply_rewrites(&mut eg, &rws);
                 let after = fingerprint(&eg, &tracked);
@@ -219,13 +233,13 @@ pub fn run(only: &[String]) -> Vec<String> {
         for t in terms() { for idx in subsets() { for iter_limit in [0usize, 1, 2, 3] { for node_limit in [0usize, 6, 10_000] { for time0 in [false, true] { for fail_at in [usize::MAX, 0, 1, 2] {
             if !deep && (time0 || fail_at != usize::MAX) && (iter_limit == 1 || node_limit == 6) { continue; }
             verif_case(format!("Runner term {} rules {:?} iter_limit {} node_limit {} time_limit_zero {} hook fails at {}", t, idx, iter_limit, node_limit, time0, fail_at));
-            let (eg, tracked) = start(t);
+            let (eg, tracked) = start::<()>(t);
             let mut runner: Runner<RL, (), (), String> = Runner::new(()).with_egraph(eg).with_iter_limit(iter_limit).with_node_limit(node_limit)
                 .with_time_limit(if time0 { Duration::from_secs(0) } else { Duration::from_secs(60) });
             let calls = std::rc::Rc::new(std::cell::Cell::new(0usize));
             let calls2 = calls.clone();
             runner = runner.with_hook(move |_r| { let c = calls2.get(); calls2.set(c + 1); if c == fail_at { Err(format!("hook failed at {}", c)) } else { Ok(()) } });
-            let report = runner.run(&mk_rules(&idx));
+            let report = runner.run(&mk_rules::<()>(&idx));
             let fp = fingerprint(&runner.egraph, &tracked);
             let desc = format!("term {} rules {:?} iter_limit {} node_limit {} time_limit_zero {} hook fails at {}", t, idx, iter_limit, node_limit, time0, fail_at);
             let mut bad: Option<(&str, String)> = None;
@@ -250,7 +264,7 @@ pub fn run(only: &[String]) -> Vec<String> {
         let mut n = 0;
         for t in terms() { for idx in [vec![0usize, 1], vec![11], vec![0, 1, 2, 5, 6]] { for limits in [(8usize, 10_000usize), (2, 10_000), (8, 8)] { for plan in [[1usize, usize::MAX, usize::MAX], [usize::MAX, 2, usize::MAX], [2, usize::MAX, 1], [3, 1, usize::MAX], [usize::MAX, usize::MAX, 0], [0, 0, 0]] {
             verif_case(format!("Runner with three hooks: term {} rules {:?} iter_limit {} node_limit {} hooks fail at their call {:?}", t, idx, limits.0, limits.1, plan));
-            let (eg, _tracked) = start(t);
+            let (eg, _tracked) = start::<()>(t);
             let mut runner: Runner<RL, (), (), String> = Runner::new(()).with_egraph(eg).with_iter_limit(limits.0).with_node_limit(limits.1);
             let first_err: std::rc::Rc<std::cell::RefCell<Option<String>>> = Default::default();
             let calls_after_err = std::rc::Rc::new(std::cell::Cell::new(0usize));
@@ -265,7 +279,7 @@ pub fn run(only: &[String]) -> Vec<String> {
                     if c == fail_at { let e = format!("hook {} failed at its call {}", h, c); if fe.borrow().is_none() { *fe.borrow_mut() = Some(e.clone()); } Err(e) } else { Ok(()) }
                 });
             }
-            let report = runner.run(&mk_rules(&idx));
+            let report = runner.run(&mk_rules::<()>(&idx));
             let desc = format!("three hooks: term {} rules {:?} iter_limit {} node_limit {} hooks fail at their call {:?}", t, idx, limits.0, limits.1, plan);
             let fe = first_err.borrow().clone();
             let mut bad: Option<(&str, String)> = None;
@@ -280,13 +294,48 @@ pub fn run(only: &[String]) -> Vec<String> {
         }}}}
     }
 
+    if want("apply_rewrites") || want("Runner::run") || want("run_eqsat") {
+        // under an analysis whose modify hook unions classes: instantiating a right side can already merge it into the
+        // left side's class, so "the final union did nothing" does not mean "nothing changed"
+        let fterms = ["(add 1 2)", "(mul (add 1 2) (var $1))", "(add (var $1) (add 2 3))", "(mul 2 (mul 3 (var $1)))", "(sub (add 1 (var $1)) (add 1 (var $1)))", "(add (mul 2 3) (mul 3 2))"];
+        let fsets: Vec<Vec<usize>> = vec![vec![0], vec![1], vec![0, 1], vec![0, 1, 2], vec![0, 1, 2, 5, 6], vec![4, 0], vec![11, 0]];
+        let mut n = 0;
+        for t in fterms { for idx in &fsets {
+            if want("apply_rewrites") {
+                let (mut eg, tracked) = start::<Fold>(t);
+                let rws = mk_rules::<Fold>(idx);
+                for round in 0..3 {
+                    verif_case(format!("constant folding analysis: term {} rules {:?} round {}", t, idx, round));
+                    if eg.total_number_of_nodes() > 300 { break; }
+                    let before = fingerprint(&eg, &tracked);
+                    let changed = apply_rewrites(&mut eg, &rws);
+                    let after = fingerprint(&eg, &tracked);
+                    if !changed && before != after && n < 3 { n += 1; fails.push(format!("FAIL apply_rewrites C15:apply_rewrites.false-means-unchanged constant folding analysis, term {} rules {:?} round {}: returned false but {:?} -> {:?}", t, idx, round, before, after)); }
+                }
+            }
+            if want("Runner::run") {
+                verif_case(format!("constant folding analysis: Runner term {} rules {:?}", t, idx));
+                let (eg, tracked) = start::<Fold>(t);
+                let mut runner: Runner<RL, Fold, (), String> = Runner::new(Fold).with_egraph(eg).with_iter_limit(6).with_node_limit(300);
+                let report = runner.run(&mk_rules::<Fold>(idx));
+                if let StopReason::Saturated = report.stop_reason { if let Some(m) = saturated_really(&mut runner.egraph, &tracked, idx) { if n < 3 { n += 1; fails.push(format!("FAIL Runner::run C15:run.saturated-true constant folding analysis, term {} rules {:?}: {}", t, idx, m)); } } }
+            }
+            if want("run_eqsat") {
+                verif_case(format!("constant folding analysis: run_eqsat term {} rules {:?}", t, idx));
+                let (mut eg, tracked) = start::<Fold>(t);
+                let report = run_eqsat(&mut eg, mk_rules::<Fold>(idx), 6, 60, |_e| Ok(()));
+                if let StopReason::Saturated = report.stop_reason { if let Some(m) = saturated_really(&mut eg, &tracked, idx) { if n < 3 { n += 1; fails.push(format!("FAIL run_eqsat C15:run_eqsat.saturated-true constant folding analysis, term {} rules {:?}: {}", t, idx, m)); } } }
+            }
+        }}
+    }
+
     if want("run_eqsat") {
         let mut n = 0;
         for t in terms() { for idx in subsets() { for iter_limit in [0usize, 1, 2, 3] { for fail_at in [usize::MAX, 0, 1] {
             verif_case(format!("run_eqsat term {} rules {:?} iter_limit {} hook fails at {}", t, idx, iter_limit, fail_at));
-            let (mut eg, tracked) = start(t);
+            let (mut eg, tracked) = start::<()>(t);
             let mut calls = 0usize;
-            let report = run_eqsat(&mut eg, mk_rules(&idx), iter_limit, 60, move |_e| { let c = calls; calls += 1; if c == fail_at { Err(format!("hook failed at {}", c)) } else { Ok(()) } });
+            let report = run_eqsat(&mut eg, mk_rules::<()>(&idx), iter_limit, 60, move |_e| { let c = calls; calls += 1; if c == fail_at { Err(format!("hook failed at {}", c)) } else { Ok(()) } });
             let fp = fingerprint(&eg, &tracked);
             let desc = format!("term {} rules {:?} iter_limit {} hook fails at {}", t, idx, iter_limit, fail_at);
             let mut bad: Option<(&str, String)> = None;
@@ -304,7 +353,7 @@ pub fn run(only: &[String]) -> Vec<String> {
     }
 
     if want("RunnerLimits::check_limits") {
-        let (mut eg, _) = start("(add (mul (var $1) (var $2)) (mul (var $2) (var $1)))");
+        let (mut eg, _) = start::<()>("(add (mul (var $1) (var $2)) (mul (var $2) (var $1)))");
         let nodes = { let mut k = 0; for i in eg.ids() { k += eg.enodes(i).len(); } k };
         let _ = &mut eg;
         let mut n = 0;
